@@ -21,6 +21,7 @@ fn main() {
         "sched" => h::sched::main(mode, rest),
         "sysw" => h::sysw::main(mode, rest),
         "env" => h::env::main(mode, rest),
+        "rpc" => h::rpc::main(mode, rest),
         _ => {
             eprintln!("unknown component {comp}");
             std::process::exit(2);
